@@ -75,7 +75,9 @@ def main():
                 ctx2 = check.run(seed=seed, case=ctx.case, tier=tier)
                 res["replay_digest"] = check.result_json(ctx2)["digest"]
             emit(res)
-        except Exception as e:  # harness failure, never a VIOLATION
+        except (KeyboardInterrupt, SystemExit):
+            raise
+        except BaseException as e:  # harness failure, never a VIOLATION (the library has BaseException-derived errors)
             emit({"harness_error": f"{type(e).__name__}: {e}", "trace": traceback.format_exc()[-3000:],
                   "req": {k: (v if k == "seed" else "...") for k, v in req.items()}})
         finally:
